@@ -267,22 +267,27 @@ def run_real(shape):
 
 def confirm(check, r):
     kind, masks = r['shape']
-    mv = next((x for x in r['sat'] if x), None)
-    if not mv: return False
-    # native realisation: component k is a real derive timeline animating the masked fields with the model's timing
-    comps = []
-    for k in range(len(masks)):
-        rd = mv.get(f'rd_{k}', 0); nn = mv.get(f'n_{k}', 0)
-        cyc = bits2f32(mv.get(f'cycle_{k}', f32bits(1.0))) if kind == 'abs' else bits2f32(mv.get(f'dur_{k}', f32bits(1.0)))
-        if not (cyc > 0 and cyc < 1e6): cyc = 1.0 + k
-        dly = bits2f32(mv.get(f'delay_{k}', 0));
-        if not (0 <= dly < 1e6): dly = 0.0
-        comps.append('%08x;%08x;%s;false;%d%d' % (f32bits(cyc), f32bits(dly), 'none' if rd == 0 else ('inf' if rd == 2 else str(nn)), masks[k][0], masks[k][1]))
-    cases = [{'kind': 'merged', 'comps': comps, 'time': '%08x' % f32bits(t)} for t in (0.4, 1.7, 3.1)]
+    mvs = [x for x in r['sat'] if x][:3]
+    if not mvs: return False
+    # native realisation: component k is a real derive timeline animating the masked fields with the model's timing; besides the
+    # solver's own timings, staggered delays are tried (a start value must reach every component, whatever its delay)
+    cases = []
+    for mv in mvs:
+        for variant in ('model', 'staggered'):
+            comps = []
+            for k in range(len(masks)):
+                rd = mv.get(f'rd_{k}', 0); nn = mv.get(f'n_{k}', 0)
+                cyc = bits2f32(mv.get(f'cycle_{k}', f32bits(1.0))) if kind == 'abs' else bits2f32(mv.get(f'dur_{k}', f32bits(1.0)))
+                if not (cyc > 0 and cyc < 1e6): cyc = 1.0 + k
+                dly = bits2f32(mv.get(f'delay_{k}', 0))
+                if not (0 <= dly < 1e6): dly = 0.0
+                if variant == 'staggered': dly = 1.5 * k; cyc = 2.0 + k
+                comps.append('%08x;%08x;%s;false;%d%d' % (f32bits(cyc), f32bits(dly), 'none' if rd == 0 else ('inf' if rd == 2 else str(nn)), masks[k][0], masks[k][1]))
+            cases += [{'kind': 'merged', 'comps': comps, 'time': '%08x' % f32bits(t)} for t in (0.4, 1.7, 3.1)]
     for case, nat in zip(cases, run_replay(cases, 'dev', 'replay_tl')):
         if nat.get('mismatch'):
             check.report_violation(f'n{len(masks)}', None, f'components {masks}: {nat["detail"]}', case); return True
-    check.inconclusive.append(f'C12 counterexample for {r["shape"]} ({str(mv)[:200]}) did not reproduce natively')
+    check.inconclusive.append(f'C12 counterexample for {r["shape"]} ({str(mvs[0])[:200]}) did not reproduce natively')
     return False
 
 
